@@ -309,6 +309,23 @@ CHECKS = {
              "parameter are outside the plan. Reference counts are not measured. Known finding: SystemError for "
              "multiple std::string results on Python >= 3.10.",
     ),
+    "C18": dict(
+        level="model_checking",
+        design="DESIGN.md section 4 / C18",
+        technique="TLA+ specs LuaDispatch (first signature whose count and Lua types match, methods with the object in "
+                  "slot 1) and CallBridge model-checked with TLC; invocations of the real generated Lua module, compiled "
+                  "against an emulation of the Lua C API, with every small stack, validated against Trace_LuaDispatch by TLC",
+        text="TLC checks on every stack of <= 4 values over 6 kinds that selection is first-match, depends only on count "
+             "and Lua types and that methods need their object. Conformance: the real Shroud wraps an instrumented "
+             "library (scalars, bool, std::string, overloads, default arguments with two omitted defaults, a class with "
+             "constructor and methods incl. a defaulted one); the module is compiled against harness/rt/luastub and a "
+             "driver enters every registered binding with every stack of length 0..maxargs+1 over {integer, float, "
+             "string, boolean, nil, object} (thorough: 9 kinds); TLC validates each invocation: the selected C++ "
+             "function receives the stack values in order, the values pushed are the library's results and their count "
+             "is reported, a stack that matches no signature raises a Lua error without reaching the library.",
+        note="Trusted: TLC, the Lua C-API emulator (no Lua is installed), rt/vt.c. A non-integral number for an integer "
+             "parameter is not judged. Known finding: bindings without overloads/defaults do not check their stack.",
+    ),
 }
 
 ALL = ["C%02d" % i for i in range(1, 19)]
